@@ -497,9 +497,12 @@ class Engine:
                 raise OutsideSubset(f"drift: ghost anchor `{key}` not found in {contract.name}")
         raise_specs = contract.raises(c0)
         nret = 0
+        self.canary_pc = None
         for f in finals:
             if f.status in ("run", "ret"):
                 nret += 1
+                if self.canary_pc is None:
+                    self.canary_pc = list(f.pc)
                 res = f.value if f.status == "ret" and f.value is not None else VNONE
                 contract.ghost(Ctx(self, h0, f.heap, args, res), f)
                 hfin = f.heap
